@@ -126,13 +126,6 @@ type i38State struct {
 	hasLease bool
 }
 
-func (b *i38Base) id(i int) string {
-	if i < 0 {
-		return ""
-	}
-	return b.ids[i]
-}
-
 func i38Setup(k i38Case) (i38State, bool) {
 	b := k.b
 	n := len(b.ids)
@@ -764,9 +757,6 @@ func runC38(c *fw.Ctx) {
 			}
 			cls := fmt.Sprintf("%s spec=%s opt=%s", pairing, i38Specs[k.spec].Name, o.Name)
 			if hung {
-				if pairing == "git->git" {
-					fw.Abort("git->git push timed out: %s", k)
-				}
 				c.Incomplete("watchdog (60 s) expired: " + cls + " on " + k.String())
 				continue
 			}
@@ -837,7 +827,6 @@ func runC38(c *fw.Ctx) {
 				r.mu.Unlock()
 			}
 			kbase := fmt.Sprintf("%s spec=%s opt=%s", pairing, i38Specs[k.spec].Name, o.Name)
-			_ = kbase
 			if f := iFsck(r.home, remote); f != "" {
 				r.fail(ci, "incomplete "+kbase, "remote fails fsck --connectivity-only after the push: "+i36FirstLine(f)+" :: "+k.String(), rep)
 			} else {
